@@ -1,5 +1,6 @@
 //! pdbverif: drives the real parity-db and emits protocol traces for the Lean model driver,
 //! plus independent oracle checks.  One sub-command per model slice.
+mod c08;
 mod c19;
 mod p1;
 mod util;
@@ -16,6 +17,7 @@ fn dispatch(cmd: &str) -> Option<RunFn> {
 	Some(match cmd {
 		"p1" => p1::run,
 		"c19" => c19::run,
+		"c08" => c08::run,
 		_ => return None,
 	})
 }
